@@ -10,6 +10,8 @@ INPUT_SETS = {
                    "alpha", "betax", "betay", "betaz", "dtalpha", "dtbetax", "dtbetay", "dtbetaz",
                    "rho0", "eps", "press", "w_lorentz", "velx", "vely", "velz"],
     "minimal": ["gammadown3", "Kdown3", "alpha", "rho"],
+    # no matter variable at all (every matter quantity falls back to its default, zero)
+    "nomatter": ["gammadown3", "Kdown3", "alpha", "betaup3"],
     # matter given as rest-mass density (vanishing in a region) and pressure, no internal energy
     "dust": ["gammadown3", "Kdown3", "alpha", "rho0", "press"],
     # shift handed over by its non-zero components only (beta^x = 0 is left to the default)
